@@ -1,6 +1,6 @@
 SPECIFICATION MCSpec
 CONSTANTS
-  MaxDepth = 4
+  MaxDepth = 3
 CONSTRAINT Depth
 PROPERTY P_Chain
 PROPERTY P_Calls
